@@ -57,9 +57,11 @@ def oracle(ctx, cases):
 
 def run(ctx):
     runner.prove(ctx, MODULE, THEOREMS, FILES)
-    cases = substcorr.batch(ctx, ctx.n(90, 700), customs=False) + substcorr.open_dict_any_cases(ctx, ctx.n(150, 1500))
+    cases = substcorr.batch(ctx, ctx.n(90, 700), customs=False) + substcorr.open_dict_any_cases(ctx, ctx.n(150, 1500)) + substcorr.list_window_cases(ctx)
     # tight scalar corpus: bounds coinciding with the substituted value
     for s, w in valcases.scalar_corpus():
+        if valcases._size(w) > 200:
+            continue        # the sizes-past-the-small-int-cache family is about the validator (C02 / C03 / C08)
         cases.append(substcorr.SubCase(s, w, w, "corpus"))
     from d42 import schema
     cases.append(substcorr.SubCase(schema.float(1.0), 1.0, 1.0000000009, "corpus"))
